@@ -543,6 +543,8 @@ def run_case(case, ctx):
             if key not in pool and len(pool) < 60:
                 pool[key] = (c, opname)
                 ctx.state(key)
+            elif key not in pool and depth >= 2:
+                ctx.count('cap-reached:distinct-derived-containers-beyond-60-not-taken-to-depth-2')
     if depth >= 2:
         for key, (c, via) in pool.items():
             cs = snap(c)
